@@ -1772,7 +1772,9 @@ class Engine:
         head.entry_env = st.entry_env
         head.trace = ('K%d.%d' % (s.lineno, len([1 for k in self._loops_done
                                                   if isinstance(k, tuple) and k[0] == id(s)])),)
-        head.sharded = False        # the continuation's paths are sharded afresh
+        head.sharded = True         # every shard that arrives explores the whole continuation
+                                    # (re-sharding here would lose paths of shards that never
+                                    # arrive with this shape)
         head.writes = set()
         self.havoc_alloc(head)
         self.havoc(head, self.cur_contract.modifies_, self.cur_penv, 'cut')
